@@ -1,0 +1,45 @@
+//go:build verif
+
+// Contracts for package config, read by /verif/govc (comment-only file).
+
+package config
+
+// ParamParser is reflection-driven; its decoding is outside the verifier's reach. What is pinned
+// down is the control-flow obligation behind "missing required keys are rejected": every successful
+// return has run the required-parameter scan (loop 5) exactly once.
+//@ func ParamParser
+//@   anchorsonly
+//@   dyncalls noeffect
+//@   modifies *
+//@   ensures err == nil ==> calls("loop#5") == 1
+
+// Merging keeps order: all items of the including file first, then those of the included file.
+//@ func (*Merger).mergeItems
+//@   ensures len(items) == len(to) + len(from)
+//@   ensures forall i int {items[i]} :: 0 <= i && i < len(to) ==> items[i] == to[i]
+//@   ensures forall j int {from[j]} :: 0 <= j && j < len(from) ==> items[len(to)+j] == from[j]
+//@   ensures fresh(items)
+
+// A file is opened only if it was not visited before (else: circular include), is named *.dae and
+// passed the directory check against the entry directory.
+//@ func (*Merger).readEntry
+//@   requires m != nil
+//@   anchorsonly
+//@   dyncalls noeffect
+//@   modifies *
+//@   at call EnsureFileInSubDir#1 assert a0 == entry && a1 == m.entryDir
+//@   at call os.Open#1 assert a0 == entry && strings.HasSuffix(entry, ".dae") && !old(has(m.entryToSectionMap, entry)) && calls("EnsureFileInSubDir") == 1
+//@   ensures old(has(m.entryToSectionMap, entry)) ==> err == ErrCircularInclude
+//@   ensures calls("os.Open") <= 1
+//@   ensures err == nil ==> calls("os.Open") == 1 && calls("config_parser.Parse") == 1
+
+// Children are merged into the father with the father's items first.
+//@ func (*Merger).dfsMerge
+//@   requires m != nil
+//@   anchorsonly
+//@   dyncalls noeffect
+//@   modifies *
+//@   at call readEntry#1 assert a0 == m && a1 == entry
+//@   at call dfsMerge#1 assert a0 == m && a2 == entry
+//@   at call mergeItems#1 assert a1 == fatherSectionMap[sec] && a2 == sectionMap[sec]
+//@   ensures err == nil ==> calls("readEntry") == 1
